@@ -306,6 +306,21 @@ fire('c04-refine-startpoint', 'C04', P, 'Process.DoLocalRefinement',
 twin('c04-refine-local', 'C04', P, 'Process.DoLocalRefinement',
      '        result.bestTrials[0].point.floatVariables = nelder_mead.x\n        result.bestTrials[0].functionValues[0].value = self.problemCalculate(result.bestTrials[0].point.floatVariables)',
      '        xs = nelder_mead.x\n        result.bestTrials[0].point.floatVariables = xs\n        result.bestTrials[0].functionValues[0].value = self.problemCalculate(xs)')
+_START_TRIAL = ('        self.searchData.InsertDataItem(middle, right)',
+                '        self.searchData.InsertDataItem(middle, right)\n'
+                '        if self.parameters.startPoint:\n'
+                '            xs = self.evolvent.GetInverseImage(self.parameters.startPoint.floatVariables)\n'
+                '            cov = self.searchData.FindDataItemByOneDimensionalPoint(xs)\n'
+                '            start = SearchDataItem(%s, xs)\n'
+                '            self.CalculateFunctionals(start)\n'
+                '            self.UpdateOptimum(start)\n'
+                '            self.RenewSearchData(start, cov)')
+fire('c04-foreign-point', 'C04', M, 'Method.FirstIteration', _START_TRIAL[0],
+     _START_TRIAL[1] % 'self.parameters.startPoint', 'R04.7',
+     why='the caller\'s Point object becomes a trial point and the refinement rewrites it in place')
+twin('c04-own-point-copy', 'C04', M, 'Method.FirstIteration', _START_TRIAL[0],
+     _START_TRIAL[1] % 'Point(np.array(self.parameters.startPoint.floatVariables, dtype=np.double), None)',
+     why='a private copy of the start point: C04 is indifferent (other properties object to the extra trial)')
 
 # ----------------------------------------------------------------------------- C06
 fire('c06-relink-swapped', 'C06', SD, 'SearchData.InsertDataItem',
@@ -735,6 +750,26 @@ twin('c05-r-div2', 'C05', EV, 'Evolvent.__GetYonX', '            r *= 0.5\n     
 twin('c05-bounds-kw', 'C05', P, 'Process.DoLocalRefinement',
      'Bounds(self.task.problem.lowerBoundOfFloatVariables, self.task.problem.upperBoundOfFloatVariables)',
      'Bounds(lb=self.task.problem.lowerBoundOfFloatVariables, ub=self.task.problem.upperBoundOfFloatVariables)')
+_NM_CALL = "options={'maxiter': self.localMethodIterationCount}, bounds=bounds)"
+fire('c05-carried-simplex', 'C05', P, 'Process.DoLocalRefinement', _NM_CALL,
+     "options={'maxiter': self.localMethodIterationCount, 'initial_simplex': getattr(self, '_simplex', None)}, bounds=bounds)\n"
+     "        self._simplex = nelder_mead.final_simplex[0]", 'R05.6',
+     why='getattr form is opaque to the carried-state test but the override is not computed from x0')
+fire('c05-carried-simplex-attr', 'C05', P, 'Process.DoLocalRefinement', _NM_CALL,
+     "options={'maxiter': self.localMethodIterationCount, 'initial_simplex': self.lastSimplex}, bounds=bounds)\n"
+     "        self.lastSimplex = nelder_mead.final_simplex[0]", 'R05.6',
+     also=[(P, 'Process.__init__', 'self.localMethodIterationCount = 0', 'self.localMethodIterationCount = 0\n        self.lastSimplex = None')])
+fire('c05-carried-start', 'C05', P, 'Process.DoLocalRefinement', 'startPoint = result.bestTrials[0].point.floatVariables',
+     'startPoint = result.bestTrials[0].point.floatVariables if self.lastStart is None else self.lastStart\n'
+     '        self.lastStart = startPoint', None,
+     also=[(P, 'Process.__init__', 'self.localMethodIterationCount = 0', 'self.localMethodIterationCount = 0\n        self.lastStart = None')])
+twin('c05-simplex-from-x0', 'C05', P, 'Process.DoLocalRefinement', _NM_CALL,
+     "options={'maxiter': self.localMethodIterationCount, 'initial_simplex': np.vstack((startPoint, startPoint + 0.01))}, bounds=bounds)",
+     also=[(P, None, 'import scipy', 'import numpy as np\nimport scipy')])
+twin('c05-options-local', 'C05', P, 'Process.DoLocalRefinement',
+     "        nelder_mead = scipy.optimize.minimize(self.problemCalculate, x0=startPoint, method='Nelder-Mead',\n                                              options={'maxiter': self.localMethodIterationCount}, bounds=bounds)",
+     "        opts = {'maxiter': self.localMethodIterationCount}\n        opts['xatol'] = self.parameters.eps\n"
+     "        nelder_mead = scipy.optimize.minimize(self.problemCalculate, x0=startPoint, method='Nelder-Mead',\n                                              options=opts, bounds=bounds)")
 
 # ----------------------------------------------------------------------------- C07
 fire('c07-isclose', 'C07', EV, 'Evolvent.__GetYonX', 'if _x == 1.0:', 'if math.isclose(_x, 1.0):', 'R07.1')
